@@ -79,6 +79,10 @@ def Graph.findGhost (key : Nat → Nat) (fuel : Nat) (g : Graph) (cur : Option (
     let (nodeKey, active, force) := g.bfs cur cond fuel start.1 active0 start.2
     some (g.mergePoint fuel nodeKey active (if force then cur else none) cond)
 
+/-- the accumulated vote of the child vote-nodes in `FindAncestor` -/
+def Graph.orCums (g : Graph) (children : List Nat) : Mask :=
+  children.foldl (fun m c => match g.entries c with | some e => m ||| e.cum | none => m) 0
+
 /-- `FindAncestor(hash, number, condition)` -/
 def Graph.findAncestor (key : Nat → Nat) (fuel : Nat) (g : Graph) (cond : Mask → Bool) :
     Nat → Nat → Nat → Option (Nat × Nat)
@@ -95,7 +99,7 @@ def Graph.findAncestor (key : Nat → Nat) (fuel : Nat) (g : Graph) (cond : Mask
         | p :: _ => Graph.findAncestor key fuel g cond f p (node.number - 1)
     | some [] => none
     | some children =>
-      let v := children.foldl (fun m c => match g.entries c with | some e => m ||| e.cum | none => m) 0
+      let v := g.orCums children
       if cond v then some (hash, number) else
       match children.getLast? with
       | none => none
